@@ -1665,6 +1665,79 @@ func (t *itype) methods() methodSet {
 	return getMethods(t)
 }
 
+// dynMethods returns the method set of t as the dynamic type of an interface value. Unlike methods, it
+// follows the rules of Go: a method with a pointer receiver is in the method set of the pointer type only,
+// a method or a field hides those of the same name at a greater depth, and an embedded field promotes
+// the method set of its type, or of the pointer to its type if it is a pointer or is addressable.
+func (t *itype) dynMethods() methodSet {
+	type embedded struct {
+		typ *itype
+		ptr bool
+	}
+	res := methodSet{}
+	hidden := map[string]bool{}
+	seen := map[*itype]bool{}
+
+	for level := []embedded{{t, false}}; len(level) > 0; {
+		found := map[string]int{} // Number of methods and fields of that name at this depth.
+		sigs := methodSet{}
+		var next []embedded
+		for _, e := range level {
+			typ, ptr := e.typ, e.ptr
+			if typ.cat == ptrT {
+				typ, ptr = typ.val, true
+			}
+			if seen[typ] {
+				continue
+			}
+			seen[typ] = true
+			for _, m := range typ.method {
+				found[m.ident]++
+				if ptr || m.child[0].child[0].lastChild().kind != starExpr {
+					sigs[m.ident] = m.typ.TypeOf().String()
+				}
+			}
+			for typ.cat == linkedT {
+				typ = typ.val // The methods of the underlying type are not inherited, its fields are.
+			}
+			switch typ.cat {
+			case structT:
+				for _, f := range typ.field {
+					found[f.name]++
+					if f.embed {
+						next = append(next, embedded{f.typ, ptr})
+					}
+				}
+			case interfaceT, errorT:
+				for k, v := range typ.methods() {
+					found[k]++
+					sigs[k] = v
+				}
+			case valueT:
+				rt := typ.rtype
+				if ptr && rt.Kind() != reflect.Interface && rt.Kind() != reflect.Ptr {
+					rt = reflect.PtrTo(rt)
+				}
+				for i := rt.NumMethod() - 1; i >= 0; i-- {
+					m := rt.Method(i)
+					found[m.Name]++
+					sigs[m.Name] = m.Type.String()
+				}
+			}
+		}
+		for k, v := range sigs {
+			if !hidden[k] && found[k] == 1 {
+				res[k] = v
+			}
+		}
+		for k := range found {
+			hidden[k] = true
+		}
+		level = next
+	}
+	return res
+}
+
 // id returns a unique type identificator string.
 func (t *itype) id() (res string) {
 	// Prefer the wrapped type string over the rtype string.
